@@ -126,11 +126,16 @@ class Rlencode(Contract):
         m = L(S)
         # consequence by induction (lemma constant-run, proved below): every run is constant
         j = self._v.Int("run")
-        out["by-lemma:constant-run@arbitrary-run"] = Implies(
-            And(0 <= j, j < m),
-            lemma_constant_run(a, S[j], If(j + 1 < m, S[j + 1], n)))
-        out["runs-are-constant"] = Implies(And(0 <= j, j < m), forall(
-            S[j], If(j + 1 < m, S[j + 1], n), lambda k: a[k] == Vv[j]))
+        lo_j = S[j]
+        hi_j = If(j + 1 < m, S[j + 1], n)
+        inside = And(0 <= j, j < m)
+        no_change = forall(lo_j + 1, hi_j, lambda k: a[k] == a[k - 1])      # antecedent of the lemma
+        constant = forall(lo_j, hi_j, lambda k: a[k] == a[lo_j])             # its conclusion
+        out["hint:no-change-point-inside-a-run"] = Implies(inside, no_change)
+        # lemma constant-run: no_change ==> constant.  Its antecedent has just been proved (hint above),
+        # so the instance contributes its conclusion.
+        out["by-lemma:constant-run@arbitrary-run"] = Implies(inside, constant)
+        out["runs-are-constant"] = Implies(inside, forall(lo_j, hi_j, lambda k: a[k] == Vv[j]))
         return out
 
     def lemmas(self, path, v):
